@@ -1,6 +1,7 @@
 import MaestroVerif.Model.Expand
 import MaestroVerif.Lemmas.SortLemmas
 import MaestroVerif.Lemmas.ExpandOrder
+import MaestroVerif.Lemmas.ExpandStage
 
 /-!
 # C11 — Expanding the same specification is repeatable
@@ -8,8 +9,9 @@ import MaestroVerif.Lemmas.ExpandOrder
 Python `set`s (`depends`, `hub_depends`, `step_combos`, `used_params`, the
 per-record parameter set) are iterated in hash order; the model abstracts every
 such iteration.  What makes the expansion repeatable is that every *observable*
-built from a set goes through `sorted(...)`; these theorems prove that this is
-enough for names, workspaces and attached parameters.  Real hash randomisation
+built from a set goes through `sorted(...)` or only adds to sets; these theorems prove that
+this is enough: for names, workspaces and attached parameters, for the parent connections of
+one instance, and (`C11_stage_order_independent`) for the whole of `stage`.  Real hash randomisation
 is a runtime behaviour: the check stages every specification in several fresh
 interpreters with different `PYTHONHASHSEED`s and output roots and compares the
 root-neutral serialisations with each other and with the model.
@@ -90,6 +92,65 @@ theorem C11_failure_order_independent (ord₁ ord₂ : List Str → List Str) (g
   cases h : addConnections ord₂ g ps c with
   | ok r => rw [h] at this; exact absurd this (by simp [RelE])
   | error f => rw [h] at this; simp only [RelE] at this; rw [this]
+
+/-- **The whole expansion is repeatable whatever order Python iterates its sets in.**  Every
+iteration over a `set` in `Study._stage` (`depends`, `hub_depends`, `step_combos`) is modelled as
+iteration over `ord S` for an arbitrary oracle `ord` that returns a permutation of `S`
+(`IsPermOracle`); for any two such oracles - two processes with different hash seeds - the
+expansion gives the same instances in the same order (names, workspaces, expanded commands,
+attached parameters, restart limits), the same adjacency table (edges, in order: hence the same
+status listing and first-submission order), the same dependency-table keys and dependency sets
+with the same members, or fails with the same error. -/
+theorem C11_stage_order_independent (spec : Spec) {ord₁ ord₂ : List Str → List Str}
+    (h₁ : IsPermOracle ord₁) (h₂ : IsPermOracle ord₂) : RelE (stage spec ord₁) (stage spec ord₂) :=
+  stage_rel spec h₁ h₂
+
+/-- spelled out for two successful expansions -/
+theorem C11_observables (spec : Spec) {ord₁ ord₂ : List Str → List Str}
+    (h₁ : IsPermOracle ord₁) (h₂ : IsPermOracle ord₂) (r₁ r₂ : XG)
+    (e₁ : stage spec ord₁ = .ok r₁) (e₂ : stage spec ord₂ = .ok r₂) :
+    r₁.insts = r₂.insts ∧ r₁.adj = r₂.adj ∧ r₁.deps.map (·.1) = r₂.deps.map (·.1) ∧
+      ∀ k x, x ∈ getAssoc r₁.deps k ↔ x ∈ getAssoc r₂.deps k := by
+  have := C11_stage_order_independent spec h₁ h₂
+  rw [e₁, e₂] at this
+  exact ⟨this.insts, this.adj, this.keys, this.mem⟩
+
+/-- a specification refused under one iteration order is refused, with the same error, under every other -/
+theorem C11_refusal_order_independent (spec : Spec) {ord₁ ord₂ : List Str → List Str}
+    (h₁ : IsPermOracle ord₁) (h₂ : IsPermOracle ord₂) (e : Err) (e₁ : stage spec ord₁ = .error e) :
+    stage spec ord₂ = .error e := by
+  have := C11_stage_order_independent spec h₁ h₂
+  rw [e₁] at this
+  cases h : stage spec ord₂ with
+  | ok r => rw [h] at this; exact absurd this (by simp [RelE])
+  | error f => rw [h] at this; simp only [RelE] at this; rw [this]
+
+/-- oracles exist: insertion order and its reverse -/
+theorem C11_oracles : IsPermOracle id ∧ IsPermOracle List.reverse :=
+  ⟨fun _ => List.Perm.refl _, fun l => List.reverse_perm l⟩
+
+/-! non-vacuity: a parameterised study with a funnel (`post` depends on every `run` instance and on
+`pre`) expands successfully under both oracles; the dependency set of `post` is filled in opposite
+orders, everything observable is the same -/
+def demoSpec : Spec :=
+  { root := "/out".toList, hashWs := false, rlimit := 1,
+    params := [{ key := "SIZE".toList, name := "SIZE".toList, tmpl := some "SIZE.%%".toList, labels := [],
+                 values := ["10".toList, "20".toList] }],
+    steps := [{ name := "pre".toList, cmd := "echo pre".toList, restart := [], depends := [],
+                texts := ["echo pre".toList], extras := [] },
+              { name := "run".toList, cmd := "echo $(SIZE)".toList, restart := [], depends := ["pre".toList],
+                texts := ["echo $(SIZE)".toList], extras := [] },
+              { name := "post".toList, cmd := "echo post".toList, restart := [],
+                depends := ["run_*".toList, "pre".toList], texts := ["echo post".toList], extras := [] }],
+    md5 := [] }
+
+example : (match stage demoSpec id, stage demoSpec List.reverse with
+    | .ok r₁, .ok r₂ =>
+      r₁.insts.map (·.name) == ["pre".toList, "run_SIZE.10".toList, "run_SIZE.20".toList, "post".toList]
+        && r₁.adj == r₂.adj
+        && getAssoc r₁.deps "post".toList == ["pre".toList, "run_SIZE.10".toList, "run_SIZE.20".toList]
+        && getAssoc r₂.deps "post".toList == ["pre".toList, "run_SIZE.20".toList, "run_SIZE.10".toList]
+    | _, _ => false) = true := by decide +kernel
 
 /-! non-vacuity: connecting `a` then `b`, or `b` then `a`, to `c` gives the same edges; the
 dependency set of `c` is filled in a different order (the relation is not plain equality) -/
